@@ -89,6 +89,34 @@ theorem ud_key_roundtrip (name : List Char) : udKeyIn (udKeyOut name) = some nam
 
 example : udKeyIn (udKeyOut "EARTH_MODEL".toList) = some "EARTH_MODEL".toList := ud_key_roundtrip _
 
+/-! ## centres other than the Earth -/
+
+/-- **CENTER_NAME, KVN** (clause "frame and centre"): for every centre the library can create — the analytical solar-system bodies,
+every body of the JPL kernels (one, two and three words: `Mars`, `MarsBarycenter`, `SolarSystemBarycenter`), the Lagrange points of
+two one-word bodies (`centerNames`, `lagrangeNames`: regenerated from the live objects) — what the KVN writers print as CENTER_NAME is
+not `earth` (so the readers take the centre branch) and `title().replace(" ", "")` gives the name of the frame back. -/
+theorem center_name_roundtrip :
+    ∀ n ∈ centerNames ++ lagrangeNames,
+      centerRead (centerWrite kvnCenterPats n.toList) = n.toList ∧ (centerWrite kvnCenterPats n.toList).map low ≠ "earth".toList := by
+  decide
+
+/-- Full statement (false of the current XML writer — `Witness/C13Ext.lean xml_lagrange_centre_glued`, open finding
+C13-xml-lagrange-centre-name-glued): the same over `centerNames ++ lagrangeNames` with `xmlCenterPats`.
+Proved part, **CENTER_NAME, XML**: every centre that is not a Lagrange point.  Missing: the XML writer splits a name only when it
+contains `Barycenter`, not `L<digit>` as the KVN writer does (proposed_fixes/C13-xml-lagrange-centre-name.diff). -/
+theorem center_name_roundtrip_xml_partial :
+    ∀ n ∈ centerNames,
+      centerRead (centerWrite xmlCenterPats n.toList) = n.toList ∧ (centerWrite xmlCenterPats n.toList).map low ≠ "earth".toList := by
+  decide
+
+/-- as soon as the XML writer tests the same patterns as the KVN writer, the full statement holds for it too -/
+theorem center_name_roundtrip_xml_of_same_pats (h : xmlCenterPats = kvnCenterPats) :
+    ∀ n ∈ centerNames ++ lagrangeNames, centerRead (centerWrite xmlCenterPats n.toList) = n.toList := by
+  rw [h]
+  exact fun n hn => (center_name_roundtrip n hn).1
+
+example : centerRead (centerWrite kvnCenterPats "SolarSystemBarycenter".toList) = "SolarSystemBarycenter".toList := by decide
+
 /-! ## the form of the points of an ephemeris -/
 
 /-- **OEM writers, any form of the points** (quantifier "every message type x {KVN, XML}"): both writers convert the points to cartesian
